@@ -191,6 +191,7 @@ def run(prop, tier, seed, t0):
         solver_unsat=agg.tot["unsat"],
         solver_unknown=agg.tot["unknown"],
         solver_seconds=round(agg.solver_secs, 1),
+        engine_selfcheck_branch_constraints_evaluated=agg.tot["selfcheck_terms"],
         shape_histogram=agg.notes,
         obligation_labels=agg.labels,
         functions_encoded=plan["functions"],
